@@ -55,6 +55,8 @@ def check(tier, seed, replay=None):
             c = {"id": len(cases), "argv": argv, "stdin": p["stdin"]}
             if kind == "r":
                 c["rfail"] = k
+                # whatever kind of error the source reports (an unclean end of a compressed or encrypted stream is UnexpectedEof): it is a failed read
+                c["rkind"] = ["Other", "UnexpectedEof", "BrokenPipe", "ConnectionReset", "TimedOut", "InvalidData", "WouldBlock", "UnexpectedEof"][(k + len(cases)) % 8]
                 c["intr"] = sorted(rnd.sample(range(0, 3 * len(data) + 3), rnd.choice([0, 0, 1, 3])))
                 c["chunks"] = [rnd.choice([1, 1, 2, 3, 7, 64]) for _ in range(5)]
             else:
